@@ -37,7 +37,7 @@ Skipped(from, to, found, rtl) ==
 
 CheckCase(r, e, cs, ci) ==
   LET n == Len(cs.s)
-      hasG == HasOp(r.p, "G")
+      hasG == r.hasg
       diff == {k \in 1..(n + 1) : ~SameReal(cs.a[k], cs.b[k])}
       strdiff == {k \in 1..(n + 1) : ~SameReal(cs.str[k], cs.b[k])}
       msbad == IF cs.ms = -1 THEN {0} ELSE IF (cs.ms = 1) # cs.b[IF r.rtl THEN n + 1 ELSE 1].ok THEN {0} ELSE {}
